@@ -48,7 +48,9 @@ Record config := mkConfig {
   c_providers : list bytes;     (* OAuth2 provider names (lower case) *)
   c_preserve : list bytes;      (* RegisterPreserveFields *)
   c_onetime : bool;             (* the user type implements totp2fa.UserOneTime *)
-  c_default_paths : bool        (* Config.Paths left at authboss.New()'s defaults: every OK / NotOK target is "/" *)
+  c_default_paths : bool;       (* Config.Paths left at authboss.New()'s defaults: every OK / NotOK target is "/" *)
+  c_wrap_remember : bool        (* remember.Middleware wraps the module routes too (the README's and the sample
+                                   application's global middleware chain), not only the application routes *)
 }.
 
 Definition has_mod (c : config) (m : modname) : bool := existsb (modname_eqb m) (c_mods c).
